@@ -3,7 +3,7 @@
 From Coq Require Import String List Bool NArith ZArith.
 From OP Require Import Base.Str Base.Check Base.ParserTypes Base.Res Base.Json Base.Sx Base.DTree
                        Gen.GParser Gen.GChecks Gen.GPolicy
-                       Model.Leaf Model.SR Model.Tokenize Model.Print Model.Eval Model.Trace Model.Enforce Model.CheckRules Model.Load Model.Pick Model.Http
+                       Model.Leaf Model.SR Model.Tokenize Model.Print Model.Eval Model.Trace Model.Enforce Model.CheckRules Model.Load Model.Pick Model.Http Model.Generator Model.Checker
                        Spec.Grammar Spec.ListRule Spec.Template Spec.LeafSpec Spec.Layering.
 Import ListNotations.
 Set Implicit Arguments.
@@ -485,6 +485,67 @@ Definition suite_tls (args : list sx) : sx :=
   | _ => bad
   end.
 
+(* ---------- sample generator ---------- *)
+Definition ddesc (x : sx) : option (option (list str)) := dopt (dlist dstr) x.
+Definition ddep (x : sx) : option deprecation :=
+  match x with
+  | L [A 0] => Some DepNone
+  | L [A 1; since; reason] =>
+      match dstr since, ddesc reason with
+      | Some s', Some r' => Some (DepRemoval s' r') | _, _ => None end
+  | L [A 2; on; oc; since; reason] =>
+      match dstr on, dstr oc, dstr since, ddesc reason with
+      | Some on', Some oc', Some s', Some r' => Some (DepRule on' oc' s' r') | _, _, _, _ => None end
+  | _ => None end.
+Definition dgdefault (x : sx) : option gdefault :=
+  match x with
+  | L [n; cs; desc; ops; sc; dep] =>
+      match dstr n, dstr cs, ddesc desc, dopt (dlist (dpair dstr dstr)) ops, dopt (dlist dstr) sc, ddep dep with
+      | Some n', Some cs', Some d', Some o', Some sc', Some dep' =>
+          Some {| g_name := n'; g_check_str := cs'; g_description := d'; g_operations := o';
+                  g_scope := sc'; g_dep := dep' |}
+      | _, _, _, _, _, _ => None end
+  | _ => None end.
+Definition sx_of_oline (o : oline) : sx :=
+  match o with OL l => L [A 0; sx_of_str l] | OW t => L [A 1; sx_of_str t] end.
+
+(* [exclude_deprecated; defaults] -> [yaml lines with wrap placeholders; json text] *)
+Definition suite_sample (args : list sx) : sx :=
+  match args with
+  | [ex; ds] =>
+      match dbool ex, dlist dgdefault ds with
+      | Some ex', Some ds' => L [sx_of_list sx_of_oline (sample_yaml ex' ds'); sx_of_str (sample_json ds')]
+      | _, _ => bad end
+  | _ => bad
+  end.
+
+(* ---------- oslopolicy-checker ---------- *)
+Definition sx_of_verdict (v : verdict) : sx :=
+  A (match v with VPassed => 1 | VFailed => 0 | VException => 2 end).
+
+(* [rules; token; is_admin; target file (option); requested rule (option); lit table]
+   -> res [listing or single verdict] *)
+Definition suite_checker (args : list sx) : sx :=
+  match args with
+  | [rules; token; adm; tf; req; lit] =>
+      match dlist (dpair dstr (dcheck [])) rules, djv token, dbool adm, dopt djv tf, dopt dstr req,
+            dlist (dpair dstr dlit) lit with
+      | Some rs, Some tok, Some adm', Some tf', Some req', Some lt =>
+          sx_of_res (fun x => x)
+            (bind (derive_creds tok adm') (fun creds =>
+             bind (derive_target creds tok tf') (fun tgt =>
+             let w := {| w_rules := rs; w_default := default_name; w_target := tgt; w_creds := creds;
+                         w_lit := fun k => match assoc k lt with Some o => o | None => LitRaise (EOther 97) end;
+                         w_http := fun _ _ => HTimeout;
+                         w_custom := fun _ _ => Raise (EOther 96) |} in
+             Ok (match req' with
+                 | Some key => L [L [sx_of_str key; sx_of_verdict (requested w key)]]
+                 | None => sx_of_list (fun p => L [sx_of_str (fst p); sx_of_verdict (snd p)]) (listing w)
+                 end))))
+      | _, _, _, _, _, _ => bad end
+  | _ => bad
+  end.
+
 Definition wire_main (x : sx) : sx :=
   match x with
   | L (A 1 :: args) => suite_tokenize args
@@ -501,5 +562,7 @@ Definition wire_main (x : sx) : sx :=
   | L (A 12 :: args) => suite_pick args
   | L (A 13 :: args) => suite_payload args
   | L (A 14 :: args) => suite_tls args
+  | L (A 15 :: args) => suite_sample args
+  | L (A 16 :: args) => suite_checker args
   | _ => sx_err 1
   end.
